@@ -195,6 +195,153 @@ def report(ctx, direction, viols, trace_file):
         ctx.violation(sig, replay=rp)
 
 
+# ---------------------------------------------------------------- caller-memory class (LogBufModel.tla)
+def buf_configs(tier):
+    """families of LogBuf.tla: one backing array travels through several calls / records and is written by
+    its owner between the calls (more than 5 attributes = overflow slice, count limit cutting inside the
+    array, at most 5 = inline array only; duplicates inside the array; nested values in the cells)"""
+    th = tier == "thorough"
+    cfgs = []
+
+    def mem(cells):
+        return "[B1 |-> %s]" % seq(cells)
+
+    def calls(items):
+        return tset('[op |-> %s, buf |-> "B1", n |-> %d]' % (q(o), n) for o, n in items)
+
+    def lits(items):
+        return tset("[op |-> %s, attrs |-> %s]" % (q(o), l) for o, l in items)
+
+    def writes(items):
+        return tset('[buf |-> "B1", cell |-> %d, kv |-> %s]' % (c, kv) for c, kv in items)
+
+    def refills(items):
+        return tset('[buf |-> "B1", attrs |-> %s]' % l for l in items)
+
+    def add(name, lim, cells, bc, lc, wr, rf, steps, clones=("r",)):
+        cfgs.append(dict(name=name, lim=lim, MAXSTEPS=steps, INITMEM=mem(cells), BUFCALLS=calls(bc), LITCALLS=lits(lc),
+                         WRITES=writes(wr), REFILLS=refills(rf), CLONES=tset(q(t) for t in clones)))
+
+    # more than 5 attributes: 8 cells, the last one repeats k1 (de-duplication compacts the array); n = 7 leaves a
+    # spare cell behind the passed slice (append / capacity class), n = 8 passes the whole array
+    over5 = [KV("k1", SHORT), KV("k2", LONG), KV("k3", SHORT), KV("k4", INT), KV("k5", SHORT), KV("k6", LONG),
+             KV("k7", MP_DUP), KV("k1", INT)]
+    add("buf-over5", dict(ac=-1, vl=2), over5,
+        [("Set", 7), ("Set", 8), ("Add", 7), ("Add", 8)],
+        [("Add", seq([KV("k6", INT), KV("k9", SHORT)])), ("Add", seq([KV("k2", INT)]))],
+        [(7, KV("k1", INT)), (6, KV("k6", INT)), (8, KV("k9", SHORT)), (2, KV("k2", SHORT))],
+        [seq([KV("k9", SHORT), KV("k8", LONG)])], 3)
+    # the count limit cuts inside the array (5 inline + 1 overflow kept)
+    limit = [KV("k%d" % i, SHORT if i % 2 else INT) for i in range(1, 9)]
+    add("buf-limit", dict(ac=6, vl=-1), limit,
+        [("Set", 7), ("Set", 8), ("Add", 8)],
+        [("Add", seq([KV("k6", LONG), KV("k1", INT)]))],
+        [(6, KV("k6", LONG)), (7, KV("k1", INT)), (8, KV("k2", SHORT))],
+        [], 3)
+    # at most 5 attributes: everything is copied into the inline array, nested values stay shared
+    upto5 = [KV("k1", SHORT), KV("k2", LONG), KV("k3", MP_DUP), KV("k2", INT), KV("k4", SL_LONG)]
+    add("buf-upto5", dict(ac=-1, vl=1), upto5,
+        [("Set", 3), ("Set", 5), ("Add", 5)],
+        [("Add", seq([KV("k3", LONG)]))],
+        [(1, KV("k1", INT)), (3, KV("k3", SHORT)), (5, KV("k1", LONG))],
+        [seq([KV("k4", LONG)])], 3)
+    if th:
+        add("buf-over5-unl", dict(ac=-1, vl=-1), over5,
+            [("Set", 7), ("Set", 8), ("Add", 7), ("Add", 8)],
+            [("Add", seq([KV("k6", INT), KV("k9", SHORT)]))],
+            [(7, KV("k1", INT)), (6, KV("k6", INT)), (8, KV("k9", SHORT))],
+            [seq([KV("k9", SHORT), KV("k8", LONG)])], 3, clones=("r", "c"))
+        add("buf-limit5", dict(ac=5, vl=1), limit,
+            [("Set", 8), ("Add", 8), ("Add", 6)],
+            [("Add", seq([KV("k5", LONG), KV("k9", INT)]))],
+            [(5, KV("k5", LONG)), (6, KV("k1", INT))],
+            [seq([KV("k9", SHORT)])], 3)
+    return cfgs
+
+
+BUF_REGIMES = ["buf_call_over5_after_dedup", "buf_call_upto5", "buf_call_spare_capacity", "buf_call_full_capacity",
+               "buf_call_with_duplicates", "buf_call_cut_by_count_limit", "buf_call_nested_value",
+               "buf_travelled_to_second_record", "buf_caller_write_after_call", "buf_literal_call_after_buffer_call",
+               "buf_op_Refill", "buf_op_Clone", "buf_op_Emit", "buf_ops_run_inside_OnEmit"]
+
+
+def buf_report(ctx, direction, viols, trace_file):
+    lines = None
+    for v in viols:
+        lim = v.get("lim") or {}
+        op = v.get("op") or {}
+        # `family`/`cls` name the behaviour class: caller-owned memory must behave as a value fixed at call time
+        sig = {"family": "caller-memory", "dir": direction, "kind": v.get("kind"), "cls": v.get("cls"),
+               "how": v.get("how"), "dev": v.get("dev"), "op": op.get("op"), "from_buffer": bool(op.get("buf")), "cap": v.get("cap"), "over5": v.get("over5"),
+               "ac": lim.get("ac"), "vl_limited": (lim.get("vl", -1) >= 0)}
+        rp = {"viol": v}
+        if "line" in v:
+            if lines is None:
+                lines = open(trace_file).read().splitlines()
+            scen = []
+            i = v["line"] - 1
+            while i >= 0:
+                rec = json.loads(lines[i])
+                scen.append({k: rec[k] for k in ("ev", "sc", "lim", "mem", "op", "rep", "in_emit") if k in rec})
+                if rec["ev"] == "BNew":
+                    break
+                i -= 1
+            scen.reverse()
+            rp["scenario"] = scen
+        ctx.violation(sig, replay=rp)
+
+
+def buffer_stage(ctx, binp):
+    th = ctx.tier == "thorough"
+    rep = (ctx.seed + 3) % 12
+    edge_trace = os.path.join(ctx.work, "buf-edges-trace.ndjson")
+    open(edge_trace, "w").close()
+    for c in buf_configs(ctx.tier):
+        d = {k: c[k] for k in ("MAXSTEPS", "INITMEM", "BUFCALLS", "LITCALLS", "WRITES", "REFILLS", "CLONES")}
+        d.update(LIM=tla_lim(c["lim"]), DEV="{}")
+        r = ctx.tlc(S, "MC_LogBuf", "MC_LogBuf.cfg", defines=d, want_edges=True, name=c["name"], timeout=3000, heap="2g")
+        tr = os.path.join(ctx.work, "replay-%s.ndjson" % c["name"])
+        out = os.path.join(ctx.work, "replay-%s.json" % c["name"])
+        ctx.run([binp, "bufreplay", "-edges", r["edges_file"], "-lim", json.dumps(c["lim"]), "-rep", str(rep),
+                 "-out", tr, "-res", out], timeout=3000)
+        res = json.load(open(out))
+        ctx.evaluations += res["evaluations"]
+        merge_counters(ctx, res, "")
+        for m in res["mismatches"]:
+            ctx.violation({"family": "caller-memory", "dir": "buf-replay", "kind": "panic", "cfg": c["name"]}, replay=m)
+        for s in res["inconclusive"]:
+            ctx.note_inconclusive(s)
+        with open(edge_trace, "a") as f:
+            f.write(open(tr).read())
+        os.remove(tr)
+    viols, accepted = ctx.validate_trace(S, "Trace_LogBuf", "Trace_LogBuf.cfg", edge_trace, timeout=3000,
+                                         name="trace-buf-edges")
+    ctx.traces_validated += accepted
+    ctx.extra["buf_edges_replayed"] = accepted
+    buf_report(ctx, "buf-replay", viols, edge_trace)
+    n = 3000 if th else 300
+    trace = os.path.join(ctx.work, "buf-trace.ndjson")
+    resf = os.path.join(ctx.work, "buf-random.json")
+    ctx.run([binp, "bufrandom", "-n", str(n), "-out", trace, "-res", resf], timeout=3000)
+    res = json.load(open(resf))
+    for m in res["mismatches"]:
+        ctx.violation({"family": "caller-memory", "dir": "buf-random", "kind": "panic"}, replay=m)
+    merge_counters(ctx, res, "")
+    viols, accepted = ctx.validate_trace(S, "Trace_LogBuf", "Trace_LogBuf.cfg", trace, timeout=3000,
+                                         name="trace-buf-random")
+    ctx.traces_validated += n
+    ctx.evaluations += accepted
+    ctx.extra["buf_random_programs"] = n
+    ctx.extra["buf_trace_lines_validated"] = accepted
+    buf_report(ctx, "buf-random", viols, trace)
+    ctx.assumptions += [
+        "caller-memory class: the attributes a call offers are what the caller itself put into the passed window of "
+        "its backing array (the caller's view is advanced by the spec from the caller's writes only); writes of the "
+        "caller INTO nested slice/map arrays are excluded (log.SliceValue / log.MapValue: 'the passed slice must not "
+        "be changed after it is passed'); all records of a scenario come from one provider (one pair of limits)",
+    ]
+
+
 def run(ctx):
     th = ctx.tier == "thorough"
     binp = ctx.go_build("c17")
@@ -265,9 +412,11 @@ def run(ctx):
     ctx.extra["trace_lines_validated"] = accepted
     ctx.add_samples(res["samples"][:1])
     report(ctx, "random", viols, trace)
+    # ---- caller-owned memory is a value fixed at call time (both directions, LogBuf.tla / Trace_LogBuf.tla)
+    buffer_stage(ctx, binp)
     # ---- vacuity: the interesting regimes were really exercised on the real code
     cs = ctx.extra.get("counters", {})
-    missing = [k for k in REGIMES if not cs.get(k)]
+    missing = [k for k in REGIMES + BUF_REGIMES if not cs.get(k)]
     ctx.extra["regimes_not_reached"] = missing
     if missing:
         ctx.note_inconclusive("regimes never exercised on the real code: %s" % missing)
